@@ -294,13 +294,13 @@ func jBool(o jobj, k string) bool {
 	v, _ := o[k].(bool)
 	return v
 }
-func jList(o jobj, k string) []any {
+func grList(o jobj, k string) []any {
 	v, _ := o[k].([]any)
 	return v
 }
 func jStrs(o jobj, k string) []string {
 	var out []string
-	for _, x := range jList(o, k) {
+	for _, x := range grList(o, k) {
 		s, _ := x.(string)
 		out = append(out, s)
 	}
@@ -372,18 +372,18 @@ func parseDate(s string) (*gDate, error) {
 
 func jKeyDefs(o jobj, k string) ([]gKeyDef, error) {
 	out := []gKeyDef{}
-	for _, x := range jList(o, k) {
+	for _, x := range grList(o, k) {
 		d, ok := x.(map[string]any)
 		if !ok {
 			return nil, fmt.Errorf("%s: definition is not an object", k)
 		}
 		kd := gKeyDef{Key: jStr(d, "key"), Code: jStr(d, "code"), Pattern: jStr(d, "pattern"), Map: jKVs(d, "map")}
-		for _, y := range jList(d, "values") {
+		for _, y := range grList(d, "values") {
 			v, ok := y.(map[string]any)
 			if !ok {
 				return nil, fmt.Errorf("%s: value is not an object", k)
 			}
-			if len(jList(v, "values")) > 0 {
+			if len(grList(v, "values")) > 0 {
 				return nil, fmt.Errorf("definition %s: nested values deeper than one level are not supported by DefTypes.v", kd.Key)
 			}
 			kd.Values = append(kd.Values, gValDef{jStr(v, "key"), jStr(v, "code")})
@@ -395,10 +395,10 @@ func jKeyDefs(o jobj, k string) ([]gKeyDef, error) {
 
 func jTagSets(o jobj, k string) []gTagSet {
 	out := []gTagSet{}
-	for _, x := range jList(o, k) {
+	for _, x := range grList(o, k) {
 		t, _ := x.(map[string]any)
 		g := gTagSet{Schema: jStr(t, "schema")}
-		for _, y := range jList(t, "list") {
+		for _, y := range grList(t, "list") {
 			d, _ := y.(map[string]any)
 			g.Keys = append(g.Keys, jStr(d, "key"))
 		}
@@ -409,10 +409,10 @@ func jTagSets(o jobj, k string) []gTagSet {
 
 func jScenarios(o jobj, k string) []gScenarioSet {
 	out := []gScenarioSet{}
-	for _, x := range jList(o, k) {
+	for _, x := range grList(o, k) {
 		s, _ := x.(map[string]any)
 		g := gScenarioSet{Schema: jStr(s, "schema")}
-		for _, y := range jList(s, "list") {
+		for _, y := range grList(s, "list") {
 			sc, _ := y.(map[string]any)
 			z := gScenario{Types: jStrs(sc, "type"), Tags: jStrs(sc, "tags"), ExtKey: jStr(sc, "ext_key"),
 				ExtCode: jStr(sc, "ext_code"), Codes: jKVs(sc, "codes"), Ext: jKVs(sc, "ext")}
@@ -428,7 +428,7 @@ func jScenarios(o jobj, k string) []gScenarioSet {
 
 func jCorrections(o jobj, k string) []gCorrection {
 	out := []gCorrection{}
-	for _, x := range jList(o, k) {
+	for _, x := range grList(o, k) {
 		c, _ := x.(map[string]any)
 		out = append(out, gCorrection{jStr(c, "schema"), jStrs(c, "types"), jStrs(c, "extensions"),
 			jBool(c, "reason_required"), jStrs(c, "stamps"), jBool(c, "copy_tax")})
@@ -454,14 +454,14 @@ func jsonRegime(file string, o jobj) (gRegime, error) {
 	if g.InboxKeys, err = jKeyDefs(o, "inbox_keys"); err != nil {
 		return g, err
 	}
-	for _, x := range jList(o, "categories") {
+	for _, x := range grList(o, "categories") {
 		c, _ := x.(map[string]any)
 		gc := gCategory{Code: jStr(c, "code"), Retained: jBool(c, "retained"), Extensions: jStrs(c, "extensions"),
 			Map: jKVs(c, "map"), Ext: jKVs(c, "ext")}
-		for _, y := range jList(c, "rates") {
+		for _, y := range grList(c, "rates") {
 			rt, _ := y.(map[string]any)
 			gr := gRate{Key: jStr(rt, "key"), Exempt: jBool(rt, "exempt"), Ext: jKVs(rt, "ext")}
-			for _, z := range jList(rt, "values") {
+			for _, z := range grList(rt, "values") {
 				v, _ := z.(map[string]any)
 				gv := gValue{Tags: jStrs(v, "tags"), Ext: jKVs(v, "ext"), Disabled: jBool(v, "disabled")}
 				if s, ok := v["since"].(string); ok {
